@@ -45,6 +45,7 @@ pub trait IntoVal { fn val(&self) -> Val; }
 impl IntoVal for f32 { fn val(&self) -> Val { Val::F(*self as f64, self.to_bits() as u64, true) } }
 impl IntoVal for f64 { fn val(&self) -> Val { Val::F(*self, self.to_bits(), false) } }
 impl IntoVal for u64 { fn val(&self) -> Val { Val::U(*self) } }
+impl IntoVal for usize { fn val(&self) -> Val { Val::U(*self as u64) } }
 
 /// a constructed distribution behind a uniform interface
 pub struct Dyn(
@@ -124,7 +125,32 @@ pub fn build_disc(family: &str, ps: &[&str]) -> Result<Dyn, String> {
     }
 }
 
+/// weighted index distributions (`walias`, `wtree`) over a weight type; weights as in the `alias` / `tree` commands
+fn build_weighted<W>(family: &str, ps: &[&str]) -> Result<Dyn, String>
+where
+    W: crate::alias::AW + crate::tree::TW + Default + 'static,
+    <W as rand::distr::uniform::SampleUniform>::Sampler: core::fmt::Debug + Clone + 'static,
+{
+    let ws: Vec<W> = match crate::wt::parse_list(&ps.join(",")) { Some(v) => v, None => return Err("badweights".to_string()) };
+    match family {
+        "walias" => mk!(rand_distr::weighted::WeightedAliasIndex::new(ws)),
+        "wtree" => mk!(rand_distr::weighted::WeightedTreeIndex::new(ws)),
+        other => Err(format!("badfamily:{}", other)),
+    }
+}
+
 pub fn build(family: &str, ty: &str, ps: &[&str]) -> Result<Dyn, String> {
+    if family == "walias" || family == "wtree" {
+        return match ty {
+            "f32" => build_weighted::<f32>(family, ps),
+            "f64" => build_weighted::<f64>(family, ps),
+            "u8" => build_weighted::<u8>(family, ps),
+            "u32" => build_weighted::<u32>(family, ps),
+            "u64" => build_weighted::<u64>(family, ps),
+            "i32" => build_weighted::<i32>(family, ps),
+            other => Err(format!("badtype:{}", other)),
+        };
+    }
     match ty {
         "f32" => build_cont::<f32>(family, ps),
         "f64" => build_cont::<f64>(family, ps),
